@@ -76,11 +76,18 @@ def _serialize_element(
     if not schema.get("properties", True):
         del schema["properties"]
     if "properties" in schema:
+        json_name = lambda name, prop: (
+            name if prop.source is None else prop.source
+        )
         schema["required"] = [
-            prop.source or name
+            json_name(name, prop)
             for name, prop in schema["properties"].items()
             if prop.required
         ]
+        schema["properties"] = {
+            json_name(name, prop): prop
+            for name, prop in schema["properties"].items()
+        }
     if not schema.get("required", True):
         del schema["required"]
     if isinstance(element, CompositionElement):
